@@ -1,0 +1,23 @@
+//go:build verif && verif_btcparse
+
+package bitcoin
+
+import secp256k1 "gitlab.com/yawning/secp256k1-voi"
+
+// Verification hooks (build tags `verif` and `verif_btcparse`).
+// Expose-only; never called by library code.
+
+// VerifParseSchnorrSignature exposes the parse stage of BIP-0340
+// verification (length, r < p, s < n, challenge).  A signature whose
+// r or s is out of range can only be told apart from an in-range one
+// at this stage: presenting a VALID signature with s+n or r+p in its
+// place would need a 2^-128 coincidence.
+func VerifParseSchnorrSignature(pkXBytes, msg, sig []byte) (ok bool, s, e *secp256k1.Scalar, sigRXBytes []byte) {
+	return parseSchnorrSignature(pkXBytes, msg, sig)
+}
+
+// VerifVerifySchnorrSignatureR exposes the final R checks (not infinite,
+// even y, x(R) = r).
+func VerifVerifySchnorrSignatureR(sigRXBytes []byte, R *secp256k1.Point) bool {
+	return verifySchnorrSignatureR(sigRXBytes, R)
+}
